@@ -589,10 +589,15 @@ where
         // Rearrange data based on sorted keys
         let original_data: Vec<(K, V)> = data.iter().cloned().collect();
 
+        // Equal keys are handed out in their original order: remember, per key, where the
+        // previous occurrence was found and continue the search behind it.
+        let mut next_from: std::collections::HashMap<u64, usize> = std::collections::HashMap::new();
         for (new_pos, &key) in keys.iter().enumerate() {
-            // Find original position of this key
-            // SAFETY: Every key in sorted keys array came from indices, so position() always finds it
-            let old_pos = indices.iter().position(|(k, _)| *k == key).unwrap();
+            let start = next_from.get(&key).copied().unwrap_or(0);
+            // SAFETY: the sorted keys are a permutation of the keys in `indices`, so the n-th
+            // occurrence of `key` in `keys` has an n-th occurrence in `indices`
+            let old_pos = start + indices[start..].iter().position(|(k, _)| *k == key).unwrap();
+            next_from.insert(key, old_pos + 1);
             data[new_pos] = original_data[indices[old_pos].1].clone();
         }
 
